@@ -2,6 +2,7 @@ package corpus
 
 import (
 	"fmt"
+	"google.golang.org/protobuf/encoding/protowire"
 	"strings"
 
 	"google.golang.org/protobuf/proto"
@@ -62,7 +63,7 @@ func Instantiate(u *Unit, flavour, optKey string) (*Instance, error) {
 	in := &Instance{Unit: u, Flavour: flavour, OptKey: optKey}
 	in.GoPkg = strings.ToLower(u.Name) + "_" + flavour + "_" + optKey
 	in.ProtoPath = "gen/" + in.GoPkg + "/" + u.Name + ".proto"
-	in.Fast = optKey != "plain"
+	in.Fast = !strings.HasPrefix(optKey, "plain")
 	in.FilePerMessage = strings.Contains(optKey, "pm")
 	in.Unsafe = strings.Contains(optKey, "us")
 	f := proto.Clone(u.File).(*descriptorpb.FileDescriptorProto)
@@ -75,6 +76,11 @@ func Instantiate(u *Unit, flavour, optKey string) (*Instance, error) {
 		f.Options = &descriptorpb.FileOptions{}
 	}
 	f.Options.GoPackage = proto.String("verifgen/gen/" + in.GoPkg + ";" + in.GoPkg)
+	if optKey == "plainsz" {
+		// gogoproto.sizer_all (extension 63020 of FileOptions) = true: protoc-gen-gogo's sizer plug-in adds a Size()
+		// method to every message, no Marshal/Unmarshal methods - a flavour csproto.Size/Marshal dispatch differently
+		f.Options.ProtoReflect().SetUnknown(protowire.AppendVarint(protowire.AppendTag(nil, 63020, protowire.VarintType), 1))
+	}
 	var dep *descriptorpb.FileDescriptorProto
 	oldDepPrefix, newDepPrefix := "\x00", ""
 	if u.Dep != nil {
@@ -203,11 +209,26 @@ func (in *Instance) FastParam() string {
 	} else {
 		p += ",apiversion=v1"
 	}
+	// boolean options: a set one is spelled in one of the forms strconv.ParseBool accepts, an unset one is either
+	// left out or switched off explicitly (picked by the package name, so that every spelling occurs in the corpus)
+	h := 0
+	for _, c := range in.GoPkg {
+		h = h*31 + int(c)
+	}
+	if h < 0 {
+		h = -h
+	}
+	on := []string{"true", "1", "t", "T", "TRUE", "True"}
+	off := []string{"", "", "false", "0", "f", "F", "FALSE", "False"}
 	if in.FilePerMessage {
-		p += ",filepermessage=true"
+		p += ",filepermessage=" + on[h%len(on)]
+	} else if o := off[h%len(off)]; o != "" {
+		p += ",filepermessage=" + o
 	}
 	if in.Unsafe {
-		p += ",enableunsafedecode=true"
+		p += ",enableunsafedecode=" + on[(h/7)%len(on)]
+	} else if o := off[(h/7)%len(off)]; o != "" {
+		p += ",enableunsafedecode=" + o
 	}
 	for _, n := range in.Unit.SpecialNames {
 		p += ",specialname=" + n
